@@ -1139,7 +1139,9 @@ static uint32_t round_it(int negative, uint32_t round_value, uint32_t check_valu
 static uintmax_t round_to_int(uintmax_t round_value, uint32_t *digits, int units_digit, uint32_t *lsd) {
     uint32_t *work_digit = digits + units_digit + 1;
 
-    return round_value + ((lsd < work_digit) ? 0 : round_it(0, 0, *work_digit, work_digit, lsd));
+    /* the parity of the integer part must be conveyed to round_it() for exact ties to be rounded to even */
+    return (lsd < work_digit) ? round_value
+            : ((round_value & ~((uintmax_t) 1)) + round_it(0, (uint32_t) (round_value & 1), *work_digit, work_digit, lsd));
 }
 
 static char *to_digits(double d, int scale) {
